@@ -176,6 +176,9 @@ def replay(case):
     d = np.asarray(case["d"], dtype=float)
     if case.get("level") == "accessor":
         return replay_accessor(case)
+    if case.get("level") == "sequence":
+        fc = case["first"]
+        one_case(case["method"], np.asarray(fc["efth"], float), np.asarray(fc["efth"], float), np.asarray(fc["f"], float), np.asarray(fc["d"], float), fc["cfg"])
     bad, exp = one_case(case["method"], S, Ssm, f, d, case["cfg"])
     return [Violation(PROP, "np_%s|%s|%s" % (case["method"], cl, spec_pred(S, exp)), msg, case) for cl, msg in bad]
 
@@ -227,6 +230,44 @@ def run_item(it):
     res["parts"][it["name"]] = res["evals"]
     if E.shape[0]:
         res["samples"].append(dict(part=it["name"], method=it["methods"][0], efth=E[E.shape[0] // 2], f=f, d=d, cfg=cfgs[0]))
+    return res
+
+
+
+# ---- call sequences on grids of equal shape but different coordinates (stale caches keyed too narrowly) ----------
+def run_sequence(it):
+    common.load_wavespectra()
+    res = {"evals": 0, "n_nontrivial": 0, "samples": [], "outcomes": {}, "violations": [], "parts": {}}
+    nf, nd = 3, 4
+    fsets = [np.array([0.06, 0.11, 0.2]), np.array([0.09, 0.16, 0.3]), np.array([0.05, 0.07, 0.4])]
+    dsets = [np.arange(nd) * 90.0, np.arange(nd) * 90.0 + 40.0]
+    grids = [(f, d) for f in fsets for d in dsets]
+    E = gen.bumps(nf, nd, 2, [3.0, 1.0], base=0.05, width=False)
+    E = np.array([e for e in E if abs(int(np.argmax(e)) // nd - int(np.argmax(np.where(e == 1.0, 1, 0))) // nd) + 0 >= 0])
+    E = E[[3, 17, 40, 58, 77, 101]]
+    cfgs = [dict(ihmax=100, count=2, wspd=w, wdir=wd, dpt=dp, agefac=af, wscut=wc) for (w, wd, dp, af, wc) in
+            [(10.0, 0.0, 5.0, 1.7, 0.3333), (10.0, 0.0, 50.0, 1.7, 0.3333), (18.0, 100.0, 5.0, 1.0, 0.0), (10.0, 0.0, 5.0, 1.0, 0.9)]]
+    seen = set()
+    for (g1, g2) in itertools.permutations(range(len(grids)), 2):
+        for ci, cfg in enumerate(cfgs):
+            cfg2 = cfgs[(ci + it["shift"]) % len(cfgs)]
+            for method in ("ptm1", "ptm2", "ptm3"):
+                for k, (g, c) in enumerate(((g1, cfg), (g2, cfg2))):
+                    f, d = grids[g]
+                    S = E[(g + k + ci) % len(E)]
+                    bad, exp = one_case(method, S, S, f, d, c)
+                    res["evals"] += 1
+                    if exp["detected"] >= 2:
+                        res["n_nontrivial"] += 1
+                    for cl, msg in bad:
+                        sig = "np_%s|%s|%s,after-call-on-other-grid-of-same-shape" % (method, cl, spec_pred(S, exp))
+                        if sig not in seen:
+                            seen.add(sig)
+                            f1, d1 = grids[g1]
+                            res["violations"].append(Violation(PROP, sig, "second call of a sequence (grid %d then grid %d): %s" % (g1, g2, msg),
+                                                               dict(level="sequence", method=method, first=dict(f=f1, d=d1, cfg=cfg, efth=E[(g1 + ci) % len(E)]),
+                                                                    efth=S, f=f, d=d, cfg=c)))
+    res["parts"]["call-sequences"] = res["evals"]
     return res
 
 
@@ -302,7 +343,7 @@ def run(rep, tier, seed, parts=None):
                 "thorough full) and complete 2-/3-bump families on 4x6 and 5x8, x PTM1/2/3 x ihmax {2,5,100} x requested count "
                 "{1,2,3,5} x wind/depth/agefac/wscut menus (full 324-config product on the structured 3x4 family); accessor level: the "
                 "same spectra on (time), (time,site), (lat,lon) layouts with per-position wind and depth, numpy- and dask-backed, "
-                "smoothing on/off. Oracle = reference model of the three methods given the watershed label map. Non-trivial = spectrum "
+                "smoothing on/off; call sequences: every ordered pair of 6 grids of equal shape but different frequency/direction values x 4 wind/depth configurations x PTM1/2/3 run back to back in one process. Oracle = reference model of the three methods given the watershed label map. Non-trivial = spectrum "
                 "with >= 2 basins.")
     rep.assumptions = ["the label map itself is C04's subject and is taken from specpart.partition",
                        "celerity() is taken from the library (checked against the dispersion relation by C01)",
@@ -367,8 +408,13 @@ def run(rep, tier, seed, parts=None):
                                 acc.append(dict(level="accessor", f=f, d=d, efth=E, layout=layout, backing=backing, smooth=smooth, method=method, cfg=cfg, sample=first))
                                 first = False
 
+    seqs = [dict(level="sequence-item", shift=k) for k in range(2)] if (parts is None or "seq" in parts) else []
+
     def dispatch(it):
+        if it.get("level") == "sequence-item":
+            return run_sequence(it)
         return run_acc(it) if it.get("level") == "accessor" else run_item(it)
+    items = seqs + items
 
     for res in common.pmap(dispatch, items + acc):
         rep.merge(res)
